@@ -85,6 +85,7 @@ def compare(vec: Dict[str, Any], obs: Dict[str, Any]) -> Outcome:      # no vect
 
 
 PROP = Prop(
+    technique='explicit TLA+ specification model-checked with TLC (all interleavings); deterministic scheduler executions of the implementation validated by TLC against the trace specification (code->spec) and compared with solo runs',
     id="C07",
     title="Validation outcomes do not depend on thread interleaving",
     slices=[],
